@@ -76,16 +76,18 @@ def parse_svg(doc):
             for lg in g.findall("g"):
                 if lg.get("class") != "label-g":
                     raise ParseError("unexpected element in label layer")
-                m = re.fullmatch(r"translate\((-?\d+), (-?\d+)\)", lg.get("transform") or "")
+                # any SVG number is a legal coordinate (the library prints integers; 1.5e+06 would be just as valid)
+                m = re.fullmatch(r"translate\((%s), (%s)\)" % (NUM, NUM), lg.get("transform") or "")
                 if not m:
-                    raise ParseError("label origin %r is not an integer pair" % lg.get("transform"))
+                    raise ParseError("label origin %r is not a pair of numbers" % lg.get("transform"))
                 r = lg.find("rect")
                 if r is None:
                     raise ParseError("label without rect")
                 st = r.get("style")
                 t = lg.find("text")
                 R["boxes"].append({
-                    "origin": (int(m.group(1)), int(m.group(2))), "w": float(r.get("width")), "h": float(r.get("height")),
+                    "origin": tuple(int(v) if float(v) == int(float(v)) and "e" not in v.lower() and "." not in v else float(v)
+                                    for v in (m.group(1), m.group(2))), "w": float(r.get("width")), "h": float(r.get("height")),
                     "fill": _rgb(st, "fill"), "border": _rgb(st, "stroke") if "stroke:" in st else None,
                     "text": None if t is None else (t.text or ""), "text_fill": None if t is None else _rgb(t.get("style"), "fill")})
     return R
